@@ -123,32 +123,38 @@ def check_bn_form(model, R):
 
 
 def check_enum(model, R):
-    R.rule('C06.ENUM', 'Loss.reduction dispatch is exhaustive: sum -> loss.sum(), mean -> loss.mean(), none/None -> unreduced, anything else raises', floor=4)
+    """Loss.__call__ evaluated for every value of self.reduction: the returned term is compared"""
+    from sa.peval import PE
+    R.rule('C06.ENUM', 'Loss.reduction dispatch is exhaustive: sum -> loss.sum(), mean -> loss.mean(), none/None -> unreduced, anything else raises (evaluated per value of self.reduction)', floor=5)
     f = model.func('synapgrad.nn.losses.Loss.__call__')
-    chain = [n for n in f.node.body if isinstance(n, ast.If) and 'self.reduction' in norm(n.test)]
-    if len(chain) != 1:
-        R.incomplete_at('C06.ENUM', f.qualname, 'reduction dispatch not found')
-        return
-    cur = chain[0]
-    seen = {}
-    raises = False
-    while True:
-        t = norm(cur.test)
-        val = [norm(n.value) for n in cur.body if isinstance(n, ast.Assign)]
-        seen[t] = val[0] if val else None
-        if len(cur.orelse) == 1 and isinstance(cur.orelse[0], ast.If):
-            cur = cur.orelse[0]
+    LOSS = P.atom('LOSS')
+    want = {'sum': P.atom('sum(LOSS)'), 'mean': P.atom('mean(LOSS)'), 'none': LOSS, None: LOSS, 'avg': 'raise', 'Sum': 'raise', '': 'raise'}
+    for red, w in want.items():
+        rec = []
+
+        def hook(pe, name, e, args, kw, env, func, depth):
+            if isinstance(e.func, ast.Attribute) and isinstance(e.func.value, ast.Call) and norm(e.func.value.func) == 'super' and e.func.attr in ('__call__', 'forward'):
+                rec.append([a for a in args])
+                return LOSS
+            red_name = e.func.attr if isinstance(e.func, ast.Attribute) else (name or '').split('.')[-1]
+            if red_name in ('sum', 'mean'):
+                recv = pe.expr(e.func.value, env, func, depth) if isinstance(e.func, ast.Attribute) and not (name or '').startswith('synapgrad') else (args[0] if args else None)
+                if isinstance(recv, P) and recv == LOSS and not kw and len(args) <= (0 if isinstance(e.func, ast.Attribute) and not (name or '').startswith('synapgrad') else 1):
+                    return P.atom('%s(LOSS)' % red_name)
+            return NotImplemented
+        try:
+            outs = PE(model, atoms={'self.reduction': red}, call_hook=hook).paths(f, {})
+        except Incomplete as u:
+            R.incomplete_at('C06.ENUM', f.qualname, 'reduction=%r: %s' % (red, u))
+            continue
+        got = [(o.kind, o.value) for o in outs]
+        if w == 'raise':
+            ok = bool(outs) and all(o.kind == 'raise' for o in outs)
         else:
-            raises = any(isinstance(x, ast.Raise) for x in cur.orelse)
-            break
-    R.ob('C06.ENUM', f.qualname, "'sum' -> %s" % seen.get("self.reduction == 'sum'"), seen.get("self.reduction == 'sum'") == 'loss.sum()', 'sum reduction', f.loc)
-    R.ob('C06.ENUM', f.qualname, "'mean' -> %s" % seen.get("self.reduction == 'mean'"), seen.get("self.reduction == 'mean'") == 'loss.mean()', 'mean reduction', f.loc)
-    nk = [k for k in seen if 'none' in k.lower()]
-    R.ob('C06.ENUM', f.qualname, 'none -> %s' % [seen[k] for k in nk], len(nk) == 1 and seen[nk[0]] == 'loss', 'unreduced loss for none / None', f.loc)
-    R.ob('C06.ENUM', f.qualname, 'fall-through raises', raises, 'a misspelt reduction must not silently return the unreduced loss', f.loc)
-    rets = [n for n in f.node.body if isinstance(n, ast.Return)]
-    first = [n for n in f.node.body if isinstance(n, ast.Assign) and 'super().__call__' in norm(n.value)]
-    R.ob('C06.ENUM', f.qualname, 'reduces the value of forward(y_pred, y_true)', bool(first) and [norm(a) for a in first[0].value.args] == f.pos_params[1:3] and len(rets) == 1, 'the per-element loss comes from forward on the same arguments', f.loc)
+            ok = len(outs) == 1 and outs[0].kind == 'return' and isinstance(outs[0].value, P) and outs[0].value == w
+        ok = ok and len(rec) == 1 and [a.canon() if isinstance(a, P) else a for a in rec[0]] == f.pos_params[1:3]
+        R.ob('C06.ENUM', f.qualname, 'reduction=%r -> %s' % (red, [(k, v.canon() if isinstance(v, P) else v) for k, v in got]), ok,
+             'documented: %s of the per-element loss forward(y_pred, y_true)' % ('a ValueError (a misspelt reduction must not silently return the unreduced loss)' if w == 'raise' else w.canon()), f.loc)
 
 
 def check_plumb(model, R):
